@@ -45,8 +45,10 @@ func (d *Ledger) faultLine(shard int, c *world.Call, mid int, conc map[string]in
 	f := world.NewFaults()
 	f.FailKind, f.FailAt = k, i
 	r := d.W.Probe(shard, c, f)
-	ev := world.AEvent{A: "fault", Sh: shard, Fn: c.Fn, Caller: d.W.NameOf(c.Caller), Rcpt: d.W.NameOf(c.Rcpt), Args: args, Res: r.Res, Err: r.Err + r.Panic, Mid: mid,
-		X: map[string]interface{}{"kind": k, "k": i, "fired": f.Fired, "of": n}}
+	// the complete description of the result (return data, emitted messages, logs) as for an ordinary step; the world stays the pre-state
+	ev := d.P.EventOf("fault", shard, c, r, mid, false)
+	ev.Args = args
+	ev.X = map[string]interface{}{"kind": k, "k": i, "fired": f.Fired, "of": n}
 	cc := map[string]interface{}{}
 	for kk, v := range conc {
 		cc[kk] = v
